@@ -224,6 +224,21 @@ def run(ctx):
         if rng.random() < 0.25:
             A, B = B, A
         run_case(ctx, ser(dict(kind="pair", label="vertex-on-doublepoint", A=A, B=B, soundness_only=True)))
+    for i in range(budget(ctx, 8, 80)):
+        # a piece that is *nearly* a straight segment (a quadratic whose middle control point is a few 1e-5 off the chord: within the
+        # cleaning tolerance of the chord) and a segment that crosses the chord but stops inside the thin gap between chord and
+        # curve: the curves do not meet (they stay about 2e-5 apart), whatever a simplified copy of the piece would say
+        x0, x1 = F(rng.randint(-4, 0)), F(rng.randint(1, 4))
+        y0 = F(rng.randint(-2, 2))
+        hgt = F(rng.choice([4, 5, 6, 7, 8]), 10**5) * (x1 - x0) / (x1 - x0)
+        xm = (x0 + x1) / 2
+        sgn = rng.choice([1, -1])
+        A = dict(U=[F(0)] * 3 + [F(1)] * 3, P=[(x0, y0), (xm, y0 + sgn * hgt), (x1, y0)], W=None)
+        off = F(rng.randint(-2, 2), 10) * (x1 - x0) / 4
+        B = dict(U=[F(0), F(0), F(1), F(1)], P=[(xm + off, y0 - sgn * F(3, 10)), (xm + off, y0 + sgn * hgt / 6)], W=None)
+        if rng.random() < 0.3:
+            A, B = B, A
+        run_case(ctx, ser(dict(kind="pair", label="gap-next-to-a-nearly-straight-piece", A=A, B=B)))
     for i in range(budget(ctx, 12, 120)):
         # single-span operands that clean() could simplify: they must come back untouched
         A, ka = reducible_bezier(rng, 2)
